@@ -137,6 +137,10 @@ type Ctx struct {
 	order    []string
 	viols    []Violation
 	harness  []string
+	// transient: events of sampling passes that did not reproduce (a timing-dependent observation on
+	// a loaded machine) or waits between workers that ran out: recorded in the evidence, never an
+	// alarm and never a harness error
+	transient []string
 }
 
 type shardOut struct {
@@ -144,6 +148,7 @@ type shardOut struct {
 	Order       []string         `json:"order"`
 	Viols       []Violation      `json:"viols"`
 	Harness     []string         `json:"harness"`
+	Transient   []string         `json:"transient"`
 	Assumptions []string         `json:"assumptions"`
 	Rule        string           `json:"rule"`
 }
@@ -217,6 +222,32 @@ func (c *Ctx) Confirm(what string, rerun func() string) bool {
 	for i := 0; i < 4; i++ {
 		if r := rerun(); r != first {
 			c.HarnessError(fmt.Sprintf("failure not stable on re-run %d: %s: %q vs %q", i, what, first, r))
+			return false
+		}
+	}
+	return true
+}
+
+// Transient records an observation of a sampling pass that is neither a violation nor a harness
+// error (see Ctx.transient).
+func (c *Ctx) Transient(s string) {
+	c.mu.Lock()
+	c.transient = append(c.transient, s)
+	c.mu.Unlock()
+}
+
+// ConfirmSampling is Confirm for sampling passes (free-running, timing-dependent executions): a
+// failure that does not show again in the re-runs is recorded as transient instead of ending the
+// run with a harness error.
+func (c *Ctx) ConfirmSampling(what string, rerun func() string) bool {
+	first := rerun()
+	if first == "" {
+		c.Transient("not reproduced in a re-run (sampling pass): " + what)
+		return false
+	}
+	for i := 0; i < 4; i++ {
+		if r := rerun(); r != first {
+			c.Transient(fmt.Sprintf("not stable on re-run %d (sampling pass): %s: %q vs %q", i, what, first, r))
 			return false
 		}
 	}
@@ -457,7 +488,7 @@ func runGuarded(spec CheckSpec, c *Ctx) {
 }
 
 func writeShard(c *Ctx, path string) {
-	so := shardOut{Parts: c.parts, Order: c.order, Viols: c.viols, Harness: c.harness, Assumptions: c.Assumptions, Rule: c.Rule}
+	so := shardOut{Parts: c.parts, Order: c.order, Viols: c.viols, Harness: c.harness, Transient: c.transient, Assumptions: c.Assumptions, Rule: c.Rule}
 	raw, _ := json.Marshal(so)
 	if path == "" {
 		os.Stdout.Write(raw)
@@ -507,6 +538,7 @@ func mergeShard(m *Ctx, so *shardOut) {
 		m.Violate(v.Part, v.Key, v.Desc, v.Replay)
 	}
 	m.harness = append(m.harness, so.Harness...)
+	m.transient = append(m.transient, so.Transient...)
 	for _, a := range so.Assumptions {
 		m.Assume(a)
 	}
@@ -644,6 +676,21 @@ func finish(spec CheckSpec, c *Ctx, wall time.Duration) int {
 	}
 	if len(sampling) > 0 {
 		ev["coverage"].(map[string]any)["sampling_passes_not_counted_in_exhaustive"] = sampling
+	}
+	if len(c.transient) > 0 {
+		tr := c.transient
+		if len(tr) > 20 {
+			tr = tr[:20]
+		}
+		for i := range tr {
+			if len(tr[i]) > 600 {
+				tr[i] = tr[i][:600] + "…"
+			}
+		}
+		ev["coverage"].(map[string]any)["transient_observations_of_sampling_passes"] = tr
+		for _, t := range tr {
+			fmt.Fprintf(os.Stderr, "note %s: %s\n", spec.ID, strings.SplitN(t, "\n", 2)[0])
+		}
 	}
 	if ev["assumptions"] == nil {
 		ev["assumptions"] = []string{}
